@@ -245,8 +245,143 @@ fn play_shuffle(turns: usize) -> (GameState, usize) {
     (g, done)
 }
 
+/// Policy 4, "long endgame, then immobilisation": Silver has a single rabbit that steps to and fro on
+/// its rank, Gold shuffles five officers inside its home ranks without ever repeating an arrangement;
+/// after the given number of turns the gold elephant walks up and freezes the rabbit, so that Silver, to
+/// move, has no step at all - the one way a long capture-free game ends other than by a goal.
+/// Only offered actions are taken.
+const ENDGAME: &str = "2g
+ +-----------------+
+8|                 |
+7|                 |
+6|     x     x     |
+5|               r |
+4|                 |
+3|     x     x   E |
+2|   H D C M       |
+1| R C             |
+ +-----------------+
+   a b c d e f g h";
+
+fn play_endgame(seed: u64, turns: usize) -> (GameState, usize) {
+    use arimaa_engine_step::{Direction, Square};
+    let mut rng = seed;
+    let mut g: GameState = ENDGAME.parse().expect("endgame position");
+    let mut seen: std::collections::HashSet<[u64; 4]> = std::collections::HashSet::new();
+    let key = |s: &GameState| {
+        let pb = s.piece_board();
+        [pb.horses & pb.p1_pieces, pb.dogs & pb.p1_pieces, pb.cats & pb.p1_pieces, pb.camels & pb.p1_pieces]
+    };
+    seen.insert(key(&g));
+    let mut done = 0usize;
+    let row_of = |sq: &Square, d: &Direction| -> i32 {
+        let i = sq.index() as i32;
+        (match d {
+            Direction::Up => i - 8,
+            Direction::Down => i + 8,
+            Direction::Left => i - 1,
+            Direction::Right => i + 1,
+        }) / 8
+    };
+    while done + 2 < turns {
+        if g.is_terminal().is_some() {
+            return (g, done);
+        }
+        let offered = g.valid_actions();
+        let gold = g.is_p1_turn_to_move();
+        let mut next = None;
+        if gold {
+            // an officer other than the elephant, staying on ranks 1-3 and on files a-e, to a new arrangement
+            let pb = g.piece_board();
+            let movers = (pb.horses | pb.dogs | pb.cats | pb.camels) & pb.p1_pieces;
+            let pool: Vec<Action> = offered.iter().copied().filter(|a| matches!(a, Action::Move(sq, d) if sq.as_bit_board() & movers != 0 && row_of(sq, d) >= 5 && {
+                let i = sq.index() as i32;
+                let to = match d { Direction::Up => i - 8, Direction::Down => i + 8, Direction::Left => i - 1, Direction::Right => i + 1 };
+                to % 8 <= 4
+            })).collect();
+            if pool.is_empty() {
+                break;
+            }
+            let start = (splitmix(&mut rng) % pool.len() as u64) as usize;
+            for k in 0..pool.len() {
+                let a = pool[(start + k) % pool.len()];
+                if g.trapped_animal_for_action(&a).is_some() {
+                    continue;
+                }
+                let n = g.take_action(&a);
+                if n.valid_actions().contains(&Action::Pass) && seen.insert(key(&n)) {
+                    next = Some(n.take_action(&Action::Pass));
+                    break;
+                }
+            }
+            if next.is_none() {
+                // every neighbouring arrangement has been used: any step whose pass is still offered
+                for k in 0..pool.len() {
+                    let a = pool[(start + k) % pool.len()];
+                    if g.trapped_animal_for_action(&a).is_some() {
+                        continue;
+                    }
+                    let n = g.take_action(&a);
+                    if n.valid_actions().contains(&Action::Pass) {
+                        next = Some(n.take_action(&Action::Pass));
+                        break;
+                    }
+                }
+            }
+        } else {
+            // the rabbit steps sideways (never forward: it stays on its rank)
+            for a in offered.iter() {
+                if let Action::Move(_, d) = a {
+                    if matches!(d, Direction::Left | Direction::Right) {
+                        let n = g.take_action(a);
+                        if n.valid_actions().contains(&Action::Pass) {
+                            next = Some(n.take_action(&Action::Pass));
+                            break;
+                        }
+                    }
+                }
+            }
+        }
+        match next {
+            Some(n) => g = n,
+            None => break,
+        }
+        done += 1;
+        if done % 5000 == 0 {
+            say(&format!("PROGRESS endgame turns={} history={}", done, g.unwrap_play_phase().hash_history().len()));
+        }
+    }
+    // Gold to move (make it so), then the elephant goes next to the rabbit
+    if !g.is_p1_turn_to_move() {
+        return (g, done);
+    }
+    let rabbit = g.piece_board().rabbits & !g.piece_board().p1_pieces;
+    let target_col = (rabbit.trailing_zeros() % 8) as i32; // the rabbit stands on rank 5 (row index 3)
+    let mut path: Vec<&str> = vec!["h3n"];
+    if target_col != 7 {
+        path.push("h4w");
+    }
+    for t in path {
+        let a: Action = t.parse().expect("action");
+        if !g.valid_actions().contains(&a) {
+            say(&format!("NOTE endgame: {} not offered", t));
+            return (g, done);
+        }
+        g = g.take_action(&a);
+    }
+    if g.valid_actions().contains(&Action::Pass) {
+        g = g.take_action(&Action::Pass);
+        done += 1;
+        let moves = g.valid_actions().len();
+        say(&format!("STAGE endgame_side_to_move_has {} actions, result {:?}", moves, g.is_terminal()));
+    }
+    (g, done)
+}
+
 fn body(seed: u64, turns: usize, policy: u64, order: u64) {
-    let (g, done) = if policy == 3 {
+    let (g, done) = if policy == 4 {
+        play_endgame(seed, turns)
+    } else if policy == 3 {
         let (g, done) = play_shuffle(turns);
         // in the middle of the next turn the repetition lookups meet a position that fills a quarter of the history
         let next: Action = ["e2n", "e7s", "e3s", "e6n"][done % 4].parse().expect("action");
@@ -531,6 +666,8 @@ fn main() {
     let turns: usize = a[2].parse().unwrap();
     let policy: u64 = a[3].parse().unwrap();
     let order: u64 = a[4].parse().unwrap();
+    // a client with logging switched on (every log statement's arguments are formatted)
+    arimaa_verif::core::enable_logging();
     // default-size thread stack: the builder is not given a size and RUST_MIN_STACK is removed by the parent
     let h = std::thread::spawn(move || body(seed, turns, policy, order));
     match h.join() {
